@@ -14,7 +14,7 @@ PROPERTY = "C08"
 LEVEL = "exploration"
 RULE = (
     "Positive: schemas of 2-7 structs/enums (long unique names) whose fields reference earlier "
-    "declarations through random container nestings ([T,n], [T], Optional[T], depth <= 4), also "
+    "declarations through random container nestings ([T,n], [T], Optional[T], depth <= 4, one in eight 8..30 levels deep), also "
     "across 'mod' imports (including two modules with the same file name in different directories, one "
     "of them imported transitively); a post-parse walker checks every Struct/Enum leaf of every accepted tree: "
     "resolves through get_struct/get_enum/get_type to exactly one declaration of the tagged kind "
@@ -47,10 +47,12 @@ def long_ident(r, used):
 
 def wrap(r, leaf, maxdepth=4):
     t = leaf
-    for _ in range(r.choice([0, 0, 1, 1, 2, 3, maxdepth])):
+    # one reference in eight sits below 8..30 container levels (an error chain has one entry per level)
+    depth = r.randint(8, 30) if maxdepth == 4 and r.random() < 0.125 else r.choice([0, 0, 1, 1, 2, 3, maxdepth])
+    for _ in range(depth):
         c = r.random()
         if c < 0.4:
-            t = ("arr", t, r.randint(1, 5))
+            t = ("arr", t, r.randint(1, 5) if depth <= 4 else r.randint(1, 2))
         elif c < 0.7:
             t = ("dyn", t)
         else:
